@@ -473,13 +473,13 @@ def r3_phase_order(c, facts):
             c.bad(R, 'phase-missing:' + p, 'compile() no longer calls %s' % p)
     seq = [p for p in PHASES if p in where]
     for a, b in zip(seq, seq[1:]):
-        if comp.dominates(where[a], where[b]) and where[a] != where[b]:
+        if (comp.dominates(where[a], where[b]) and where[a] != where[b]) or P.dominates_ok(comp, where[a], where[b]):
             c.ok(R, {'before': a, 'after': b})
         else:
             c.bad(R, 'order:%s<%s' % (a, b), 'in compile(), %s does not dominate %s' % (a, b))
     for r in READERS:
         if r in where and 'inference::substitute' in where:
-            if comp.dominates(where['inference::substitute'], where[r]):
+            if comp.dominates(where['inference::substitute'], where[r]) or P.dominates_ok(comp, where['inference::substitute'], where[r]):
                 c.ok(R, {'before': 'inference::substitute', 'after': r})
             else:
                 c.bad(R, 'order:substitute<%s' % r, '%s reads tags but is not dominated by substitute()' % r)
